@@ -333,9 +333,18 @@ func cmdCrashSimple(fs *flag.FlagSet, args []string) {
 		// far made it / none of the un-barriered ones did
 		cps = append([]cp{{p: p0, desc: "right after start-up, all-pending-written"}, {p: p0, dropAll: true, desc: "right after start-up, no-pending-written"}}, cps...)
 		probeReported := false
+		nrec := 0
 		checked, distinct := checkPrefixStates("C17", fmt.Sprintf("simple workload %d (seed %d)", w, *seed), events, ops, dumps, cps, func(img map[uint64][]byte) (string, bool) {
 			var rs *simple.Nfs
-			if !guardedCall(func() { rs = simple.Recover(NewOverlay(disksz, img)) }) {
+			nrec++
+			if !guardedCall(func() {
+				// both ways a simple server comes up on a used disk: the recovery example's and cmd/simple-nfsd's
+				if nrec%2 == 0 {
+					rs = simple.Recover(NewOverlay(disksz, img))
+				} else {
+					rs = simple.MakeNfs(NewOverlay(disksz, img))
+				}
+			}) {
 				return "", false
 			}
 			d, ok := dumpSrv(rs)
